@@ -14,15 +14,27 @@ Clause → theorem (model: Model/Export.lean; a double is its exact value ± num
 round-half-even of that exact value, text is `List Char`)
   one header line + one row per point, in order          save_rows_in_order, save_row_fields
   header built from the semantics                        header_spec, header_fields
-  parsed values = coordinates to 6 decimals              parse_save (∀ header, ∀ rows, ∀ widths),
-                                                         round6_error (≤ 5·10⁻⁷, sign/finiteness kept),
+  parsed values = coordinates to 6 decimals              parse_save (∀ non-empty newline-free header, ∀ rows, ∀ widths),
+                                                         parse_save_semantics (the header IS `headerOf` of the
+                                                         semantics, ≥ 1 dimension; headerOf_ne_nil),
+                                                         round6_error (≤ 5·10⁻⁷, sign/finiteness kept; needs 0 < den),
+                                                         round6_error_bits + valOfBits_den_pos (for the value behind
+                                                         every finite bit pattern),
                                                          roundHalfEven_error, roundHalfEven_tie_even,
                                                          roundDec_nonfinite, parseDecimal_fmtDec
-  '.txt' appended iff no extension                       txt_appended_iff_no_ext, splitext_spec,
-                                                         ext_nonempty_iff (which paths have one)
+  '.txt' appended iff no extension                       txt_appended_iff_no_ext (in terms of the PATH: last component
+                                                         `stem.e`, a non-dot character in `stem`, no dot in `e`),
+                                                         splitext_spec, ext_nonempty_iff;
+                                                         txt_appended_iff_no_ext_unfold (unfolding of `savePath`,
+                                                         true for any `splitext`)
   closed polyline, order, swap                           polyline_closed, polyline_swap
-  sample / design conditions as supplied                 scatter_spec, design_conditions_as_supplied,
-                                                         design_conditions_old_counterexample (defect #13)
+  sample / design conditions as supplied                 scatter_spec; design_conditions_as_supplied_def is only the
+                                                         defining equations of the model function `designPts` (free
+                                                         default): the clause rests on the correspondence (scatter
+                                                         offsets compared bit for bit), NOT on a theorem;
+                                                         COUNTER-MODEL (`designPtsOld`, defect #13, never run by the
+                                                         driver): design_conditions_old_counterexample,
+                                                         design_conditions_old_every_nonempty_array
   other plots draw the leaf values unmodified            curve_values  — PARTIAL with respect to the clause: the
                                                          theorem is about the model curve of an uninterpreted
                                                          leaf (pdf, dependence function); that the arrays the
@@ -33,16 +45,21 @@ round-half-even of that exact value, text is `List Char`)
                                                          observed per run by the harness (`ck.partial`), not
                                                          proven. No theorem exists for histogram data or
                                                          marginal quantiles.
-  reader: every row, in order, time stamp as index       reader_lines_in_order (ANY text: any padding, blank
-                                                         lines, with/without final newline),
-                                                         reader_returns_every_line (converse: nothing dropped,
-                                                         merged, reordered), reader_crlf (Windows line ends),
-                                                         reader_rows_in_order + parseBenchRow_padded (a rendered
-                                                         benchmark row, any padding, parses to itself),
-                                                         parseStamp_fmtStamp
+  reader: every row, in order, time stamp as index       reader_free_layout (ANY column names / rows written with any
+                                                         padding after the separators, blank lines before the header
+                                                         and between rows, no / one / several final line ends, `\n` or
+                                                         Windows line ends: the reader returns exactly the names and
+                                                         the rows in file order), reader_rows_in_order (canonical
+                                                         layout), parseBenchRow_padded, fields_padLine, reader_crlf,
+                                                         parseStamp_fmtStamp;
+                                                         readBenchmark_unfold_lines_in_order /
+                                                         readBenchmark_unfold_returns_every_line are unfoldings of
+                                                         `readBenchmark` (their hypothesis / conclusion is "every line
+                                                         parses to its row"), no statement about file contents
 
-The save / polyline / scatter / design-condition / reader clauses are proven for all inputs
-(induction on rows / digits / paths); the "other plot functions" clause is partial as said above.
+The save / polyline / scatter / reader clauses are proven for all inputs (induction on rows /
+digits / paths); the design-condition clause has no theorem beyond the model's definition; the "other
+plot functions" clause is partial as said above.
 What is *not* a theorem and is tied by the correspondence check on every run: that the model's
 `saveText` / `savePath` / `closePolyline` / `readBenchmarkU` / `linspaceEndF` compute what the
 Python code (numpy's savetxt, os.path.splitext, matplotlib, pandas.read_csv) computes.
@@ -530,15 +547,30 @@ theorem ext_nonempty_iff (p : Str) :
     rw [if_pos hany]
     simp
 
-/-- **txt_appended_iff_no_ext.**  `.txt` is appended exactly when `os.path.splitext` finds no
-extension; otherwise the path is used unchanged. -/
-theorem txt_appended_iff_no_ext (p : Str) :
+/-- (unfolding of `savePath`: true for ANY function in place of `splitext`) `.txt` is appended exactly
+when `splitext` returns an empty extension; otherwise the path is used unchanged.  The statement about
+paths is `txt_appended_iff_no_ext`. -/
+theorem txt_appended_iff_no_ext_unfold (p : Str) :
     (savePath p = p ++ ['.', 't', 'x', 't'] ↔ (splitext p).2 = []) ∧
       (savePath p = p ↔ (splitext p).2 ≠ []) := by
   unfold savePath
   by_cases h : (splitext p).2 = []
   · simp [h]
   · simp [h]
+
+/-- **txt_appended_iff_no_ext.**  The path is used unchanged exactly when its last component has the
+form `stem ++ "." ++ e` with no dot in `e` and at least one non-dot character in `stem` (posix
+`os.path.splitext` finds an extension: `a.b`, `x/.h.t`, `a.`); in every other case (`name`, `.hidden`,
+`..a`, `dir.d/name`) `.txt` is appended. -/
+theorem txt_appended_iff_no_ext (p : Str) :
+    (savePath p = p ↔
+      ∃ dir stem e, p = dir ++ stem ++ '.' :: e ∧ (dir = [] ∨ dir.getLast? = some '/') ∧
+        '/' ∉ stem ∧ (∃ c ∈ stem, c ≠ '.') ∧ '.' ∉ e ∧ '/' ∉ e) ∧
+    (savePath p = p ++ ['.', 't', 'x', 't'] ↔
+      ¬ ∃ dir stem e, p = dir ++ stem ++ '.' :: e ∧ (dir = [] ∨ dir.getLast? = some '/') ∧
+        '/' ∉ stem ∧ (∃ c ∈ stem, c ≠ '.') ∧ '.' ∉ e ∧ '/' ∉ e) := by
+  rw [← ext_nonempty_iff, (txt_appended_iff_no_ext_unfold p).1, (txt_appended_iff_no_ext_unfold p).2]
+  simp
 
 /-! rounding -/
 
@@ -626,6 +658,22 @@ theorem round6_error (s : Bool) (n d : Nat) (hd : 0 < d) :
   norm_num at h ⊢
   linarith
 
+/-- the exact value decoded from a bit pattern has a positive denominator (the hypothesis `0 < d` of
+`round6_error` is met by every double) -/
+theorem valOfBits_den_pos (b : Nat) (s : Bool) (n d : Nat) (h : valOfBits b = .fin s n d) : 0 < d := by
+  unfold valOfBits at h
+  simp only at h
+  split_ifs at h <;> injection h with _ _ hd <;> rw [← hd] <;> positivity
+
+/-- **round6_error_bits**: `round6_error` for the value behind ANY finite bit pattern (what the driver
+decodes from the coordinates it receives) -/
+theorem round6_error_bits (b : Nat) (s : Bool) (n d : Nat) (h : valOfBits b = .fin s n d) :
+    ∃ k, roundDec 6 (valOfBits b) = .fin s k 6 ∧
+      ∀ x y, Val.toRat (valOfBits b) = some x → Dec.toRat (.fin s k 6) = some y →
+        |y - x| ≤ 5 / 10 ^ 7 := by
+  rw [h]
+  exact round6_error s n d (valOfBits_den_pos b s n d h)
+
 theorem roundDec_nonfinite (p : Nat) : roundDec p .nan = .nan ∧ ∀ s, roundDec p (.inf s) = .inf s :=
   ⟨rfl, fun _ => rfl⟩
 
@@ -669,6 +717,45 @@ theorem header_fields (names units : List Str) (nDim : Nat) (h : Str) (hpos : 0 
     have := congrArg List.length he
     simp only [List.length_zipWith, List.length_take, List.length_nil] at this
     omega
+  · exact absurd hh (by simp)
+
+theorem label_ne_nil (n u : Str) : label n u ≠ [] := by simp [label]
+
+/-- the header of at least one dimension is not empty (hypothesis `h1` of `parse_save`) -/
+theorem headerOf_ne_nil (names units : List Str) (nDim : Nat) (h : Str) (hpos : 0 < nDim)
+    (hh : headerOf names units nDim = some h) : h ≠ [] := by
+  unfold headerOf at hh
+  split at hh
+  · rename_i hg
+    injection hh with hh
+    rw [← hh]
+    obtain ⟨k, rfl⟩ : ∃ k, nDim = k + 1 := ⟨nDim - 1, by omega⟩
+    cases names with
+    | nil => simp at hg
+    | cons n ns =>
+      cases units with
+      | nil => simp at hg
+      | cons u us =>
+        simp only [List.take_succ_cons, List.zipWith_cons_cons]
+        exact joinSep_ne_nil _ _ _ (label_ne_nil n u)
+  · exact absurd hh (by simp)
+
+/-- **parse_save_semantics**: `parse_save` with the header the code actually writes - the one built
+from the semantics by `headerOf`, for at least one dimension and names / units free of newlines:
+reading back what was saved returns that header and every value rounded to 6 decimals. -/
+theorem parse_save_semantics (names units : List Str) (nDim : Nat) (h : Str) (rows : List (List Val))
+    (hpos : 0 < nDim) (hh : headerOf names units nDim = some h)
+    (hnl : ∀ l ∈ List.zipWith label (names.take nDim) (units.take nDim), '\n' ∉ l) :
+    parseText (saveText h rows) = some (h, rows.map (·.map (roundDec 6))) := by
+  apply parse_save h rows (headerOf_ne_nil names units nDim h hpos hh)
+  unfold headerOf at hh
+  split at hh
+  · injection hh with hh
+    rw [← hh]
+    intro hm
+    rcases mem_joinSep _ _ _ hm with hm | ⟨l, hl, hc⟩
+    · exact absurd hm (by decide)
+    · exact hnl l hl hc
   · exact absurd hh (by simp)
 
 /-! polyline -/
@@ -945,11 +1032,13 @@ theorem mapM_forall2 {α β : Type} (f : α → Option β) (ls : List α) (rs : 
   | nil => rfl
   | cons hab _ ih => rw [List.mapM_cons, hab, ih]; rfl
 
-/-- **reader_lines_in_order.**  For ANY text (any separator padding, blank lines anywhere, with or
-without final newline): if `hdr :: ls` are its non-blank lines in file order and every data line
-`l` parses (valid stamp, one decimal per data column) to `r`, the reader returns the header's
-column names and exactly these rows, one per data line, in file order. -/
-theorem reader_lines_in_order (text hdr : Str) (ls : List Str) (rs : List (Stamp × List Dec))
+/-- (unfolding of `readBenchmark`: the hypothesis `hrows` already says that every data line parses to
+its row, so this theorem only states how `readBenchmark` is assembled from `splitOn`, `filter`,
+`fields` and `parseBenchRow`; the statement with content is `reader_free_layout` below.)
+If `hdr :: ls` are the non-blank lines of the text in file order and every data line `l` parses
+(valid stamp, one decimal per data column) to `r`, the reader returns the header's column names and
+exactly these rows, one per data line, in file order. -/
+theorem readBenchmark_unfold_lines_in_order (text hdr : Str) (ls : List Str) (rs : List (Stamp × List Dec))
     (hlines : (splitOn '\n' text).filter (· ≠ []) = hdr :: ls)
     (hrows : List.Forall₂ (fun l r => parseBenchRow (fields hdr).length l = some r) ls rs) :
     readBenchmark text = some (fields hdr, rs) := by
@@ -959,9 +1048,10 @@ theorem reader_lines_in_order (text hdr : Str) (ls : List Str) (rs : List (Stamp
   rw [mapM_forall2 _ ls rs hrows]
   rfl
 
-/-- conversely, whatever the reader returns has one row per non-blank data line, in order, each the
-parse of that line; nothing is dropped, merged or reordered -/
-theorem reader_returns_every_line (text : Str) (cols : List Str) (rs : List (Stamp × List Dec))
+/-- (unfolding of `readBenchmark`, converse direction) whatever the reader returns has one row per
+non-blank data line, in order, each the parse of that line; nothing is dropped, merged or reordered
+BY THE ASSEMBLY - what a line parses to is the business of `parseBenchRow_padded` -/
+theorem readBenchmark_unfold_returns_every_line (text : Str) (cols : List Str) (rs : List (Stamp × List Dec))
     (h : readBenchmark text = some (cols, rs)) :
     ∃ hdr ls, (splitOn '\n' text).filter (· ≠ []) = hdr :: ls ∧ cols = fields hdr ∧
       ls.mapM (parseBenchRow cols.length) = some rs ∧ rs.length = ls.length := by
@@ -1075,17 +1165,225 @@ theorem reader_crlf (text : Str) (h : '\r' ∉ text) :
   rw [normalizeEol_toCRLF text h, normalizeEol_of_no_cr text h]
   exact ⟨rfl, rfl⟩
 
+/-! the reader on files in FREE LAYOUT: composition of `fields_padLine`, `parseBenchRow_padded`,
+`splitOn_joinSep` and `reader_crlf` -/
+
+/-- a data line of a row with `pads[i]` blanks after the i-th separator -/
+def paddedRow (r : Stamp × List Dec) (pads : List Nat) : Str :=
+  padLine (fmtStamp r.1) (pads.zip (r.2.map fmtDec))
+
+/-- the lines of a file in free layout: `pre` blank lines, the header line, every data line preceded by
+its own number of blank lines, and `post` empty pieces at the end (`post = 0`: no final newline,
+`post = 1`: the file ends with a newline, `post = 2`: … followed by a blank line, …) -/
+def looseLines (pre : Nat) (hdr : Str) (items : List (Nat × Str)) (post : Nat) : List Str :=
+  List.replicate pre [] ++ hdr :: (items.flatMap (fun it => List.replicate it.1 [] ++ [it.2]) ++
+    List.replicate post [])
+
+theorem filter_replicate_nil (k : Nat) :
+    (List.replicate k ([] : Str)).filter (fun x => decide (x ≠ [])) = [] := by
+  induction k with
+  | zero => rfl
+  | succ k ih => simp [List.replicate_succ]
+
+theorem filter_looseLines (pre : Nat) (hdr : Str) (items : List (Nat × Str)) (post : Nat)
+    (hh : hdr ≠ []) (hi : ∀ it ∈ items, it.2 ≠ []) :
+    (looseLines pre hdr items post).filter (fun x => decide (x ≠ [])) = hdr :: items.map Prod.snd := by
+  unfold looseLines
+  rw [List.filter_append, filter_replicate_nil, List.nil_append,
+    List.filter_cons_of_pos (by simpa using hh), List.filter_append, filter_replicate_nil,
+    List.append_nil]
+  congr 1
+  induction items with
+  | nil => rfl
+  | cons it rest ih =>
+    rw [List.flatMap_cons, List.filter_append, List.filter_append, filter_replicate_nil,
+      List.nil_append, List.map_cons, ih (fun x hx => hi x (List.mem_cons_of_mem _ hx))]
+    have := hi it (List.mem_cons_self ..)
+    simp [this]
+
+theorem notin_padLine (x : Char) (f : Str) (rest : List (Nat × Str)) (hx : x ≠ ';') (hs : x ≠ ' ')
+    (h : ∀ g ∈ f :: rest.map Prod.snd, x ∉ g) : x ∉ padLine f rest := by
+  intro hm
+  unfold padLine at hm
+  rcases mem_joinSep _ _ _ hm with hm | ⟨g, hg, hc⟩
+  · exact hx hm
+  · simp only [List.mem_cons, List.mem_map] at hg
+    rcases hg with rfl | ⟨p, hp, rfl⟩
+    · exact h _ (by simp) hc
+    · rcases List.mem_append.mp hc with hc | hc
+      · exact hs (List.eq_of_mem_replicate hc)
+      · exact h p.2 (by simp; exact Or.inr ⟨p.1, hp⟩) hc
+
+theorem notin_looseLines_join (x : Char) (pre : Nat) (hdr : Str) (items : List (Nat × Str)) (post : Nat)
+    (hx : x ≠ '\n') (hh : x ∉ hdr) (hi : ∀ it ∈ items, x ∉ it.2) :
+    x ∉ joinSep '\n' (looseLines pre hdr items post) := by
+  intro hm
+  rcases mem_joinSep _ _ _ hm with hm | ⟨l, hl, hc⟩
+  · exact hx hm
+  · unfold looseLines at hl
+    simp only [List.mem_append, List.mem_cons, List.mem_flatMap, List.not_mem_nil, or_false] at hl
+    rcases hl with hl | rfl | ⟨it, hit, hl | rfl⟩ | hl
+    · rw [List.eq_of_mem_replicate hl] at hc; simp at hc
+    · exact hh hc
+    · rw [List.eq_of_mem_replicate hl] at hc; simp at hc
+    · exact hi it hit hc
+    · rw [List.eq_of_mem_replicate hl] at hc; simp at hc
+
+/-- no character other than a digit, `-`, `.` or a letter of `nan` / `inf` occurs in a `%f` text -/
+theorem notin_fmtDec (x : Char) (d : Dec) (hd : x.isDigit = false)
+    (hx : x ≠ '-' ∧ x ≠ '.' ∧ x ≠ 'n' ∧ x ≠ 'a' ∧ x ≠ 'i' ∧ x ≠ 'f') : x ∉ fmtDec d := by
+  obtain ⟨h1, h2, h3, h4, h5, h6⟩ := hx
+  have hdig : ∀ c : Char, c.isDigit = true → x ≠ c := fun c hc e => by rw [e, hc] at hd; cases hd
+  intro hc
+  cases d with
+  | nan => simp [fmtDec] at hc; rcases hc with rfl | rfl | rfl <;> simp_all
+  | inf s =>
+    cases s <;> simp [fmtDec] at hc
+    · rcases hc with rfl | rfl | rfl <;> simp_all
+    · rcases hc with rfl | rfl | rfl | rfl <;> simp_all
+  | fin s m p =>
+    rw [fmtDec_fin, bodyOf, List.mem_append, List.mem_append] at hc
+    rcases hc with hc | hc | hc
+    · cases s <;> simp at hc; exact h1 hc
+    · exact hdig x (natDigits_all_digit _ x hc) rfl
+    · by_cases hp : p = 0
+      · simp [hp] at hc
+      · simp only [hp, if_false, List.mem_cons] at hc
+        rcases hc with hc | hc
+        · exact h2 hc
+        · exact hdig x (fixedDigits_all_digit _ _ x hc) rfl
+
+theorem notin_fmtStamp (x : Char) (s : Stamp) (hd : x.isDigit = false) (hx : x ≠ '-') :
+    x ∉ fmtStamp s := by
+  have hdig : ∀ w n, x ∉ fixedDigits w n := fun w n hm => by
+    rw [fixedDigits_all_digit w n x hm] at hd; cases hd
+  intro hc
+  unfold fmtStamp at hc
+  simp only [List.mem_append, List.mem_cons] at hc
+  rcases hc with hc | hc | hc | hc | hc | hc | hc
+  · exact hdig _ _ hc
+  · exact hx hc
+  · exact hdig _ _ hc
+  · exact hx hc
+  · exact hdig _ _ hc
+  · exact hx hc
+  · exact hdig _ _ hc
+
+theorem notin_paddedRow (x : Char) (r : Stamp × List Dec) (pads : List Nat) (hd : x.isDigit = false)
+    (hx : x ≠ '-' ∧ x ≠ '.' ∧ x ≠ 'n' ∧ x ≠ 'a' ∧ x ≠ 'i' ∧ x ≠ 'f') (h1 : x ≠ ';') (h2 : x ≠ ' ') :
+    x ∉ paddedRow r pads := by
+  unfold paddedRow
+  apply notin_padLine x _ _ h1 h2
+  intro g hg
+  simp only [List.mem_cons, List.mem_map] at hg
+  rcases hg with rfl | ⟨p, hp, rfl⟩
+  · exact notin_fmtStamp x _ hd hx.1
+  · have := (List.of_mem_zip hp).2
+    rw [List.mem_map] at this
+    obtain ⟨d, -, hd'⟩ := this
+    rw [← hd']
+    exact notin_fmtDec x d hd hx
+
+theorem paddedRow_ne_nil (r : Stamp × List Dec) (pads : List Nat) : paddedRow r pads ≠ [] := by
+  unfold paddedRow padLine
+  exact joinSep_ne_nil _ _ _ (fmtStamp_ne_nil r.1)
+
+/-- **reader_free_layout** (the reader clause, composed).  Take ANY column names (first one non-empty,
+none containing `;`, a newline or a carriage return, none starting with a blank), ANY rows (valid
+time stamp, one decimal per data column) and write them in FREE LAYOUT: any number of blanks after
+every `;` of the header (`cpads`) and of every data line (each row has its own `pads`), any number of
+blank lines before the header and before every data line, and no / one / several line ends after the
+last row (`post`).  Then the reader returns exactly the column names and, for every row, in file
+order, its time stamp (the index) and its values - and the same when the file is stored with Windows
+line ends. -/
+theorem reader_free_layout (c0 : Str) (cols : List Str) (cpads : List Nat)
+    (rows : List (Nat × (Stamp × List Dec) × List Nat)) (pre post : Nat)
+    (hc0 : c0 ≠ [])
+    (hcols : ∀ f ∈ c0 :: cols, ';' ∉ f ∧ '\n' ∉ f ∧ '\r' ∉ f ∧ f.head? ≠ some ' ')
+    (hcp : cpads.length = cols.length)
+    (hrows : ∀ x ∈ rows, x.2.1.1.valid = true ∧ x.2.1.2.length = cols.length ∧
+      x.2.2.length = cols.length) :
+    readBenchmark (joinSep '\n' (looseLines pre (padLine c0 (cpads.zip cols))
+        (rows.map fun x => (x.1, paddedRow x.2.1 x.2.2)) post)) =
+      some (c0 :: cols, rows.map (·.2.1)) ∧
+    readBenchmarkU (toCRLF (joinSep '\n' (looseLines pre (padLine c0 (cpads.zip cols))
+        (rows.map fun x => (x.1, paddedRow x.2.1 x.2.2)) post))) =
+      some (c0 :: cols, rows.map (·.2.1)) := by
+  have hsnd : (cpads.zip cols).map Prod.snd = cols := List.map_snd_zip (by simp [hcp])
+  have hhdr_ne : padLine c0 (cpads.zip cols) ≠ [] := by
+    unfold padLine; exact joinSep_ne_nil _ _ _ hc0
+  have hitems_ne : ∀ it ∈ rows.map (fun x => (x.1, paddedRow x.2.1 x.2.2)), it.2 ≠ [] := by
+    intro it hit
+    obtain ⟨x, -, rfl⟩ := List.mem_map.mp hit
+    exact paddedRow_ne_nil _ _
+  have hkey : readBenchmark (joinSep '\n' (looseLines pre (padLine c0 (cpads.zip cols))
+        (rows.map fun x => (x.1, paddedRow x.2.1 x.2.2)) post)) =
+      some (c0 :: cols, rows.map (·.2.1)) := by
+    unfold readBenchmark
+    rw [splitOn_joinSep]
+    · rw [filter_looseLines _ _ _ _ hhdr_ne hitems_ne]
+      simp only []
+      rw [fields_padLine _ _ (by rw [hsnd]; exact fun g hg => ⟨(hcols g hg).1, (hcols g hg).2.2.2⟩),
+        hsnd, List.map_map]
+      rw [mapM_map_some (parseBenchRow (c0 :: cols).length)
+        (Prod.snd ∘ fun x : Nat × (Stamp × List Dec) × List Nat => (x.1, paddedRow x.2.1 x.2.2))
+        (fun x => x.2.1) rows
+        (fun x hx => parseBenchRow_padded _ x.2.1 x.2.2 (hrows x hx).1
+          (by simp [(hrows x hx).2.1]) (by rw [(hrows x hx).2.2, (hrows x hx).2.1]))]
+      rfl
+    · unfold looseLines; simp
+    · intro l hl
+      unfold looseLines at hl
+      simp only [List.mem_append, List.mem_cons, List.mem_flatMap, List.not_mem_nil, or_false] at hl
+      rcases hl with hl | rfl | ⟨it, hit, hl | rfl⟩ | hl
+      · rw [List.eq_of_mem_replicate hl]; simp
+      · apply notin_padLine _ _ _ (by decide) (by decide)
+        rw [hsnd]; exact fun g hg => (hcols g hg).2.1
+      · rw [List.eq_of_mem_replicate hl]; simp
+      · obtain ⟨x, -, rfl⟩ := List.mem_map.mp hit
+        exact notin_paddedRow _ _ _ (by decide) (by decide) (by decide) (by decide)
+      · rw [List.eq_of_mem_replicate hl]; simp
+  refine ⟨hkey, ?_⟩
+  rw [(reader_crlf _ ?_).1, hkey]
+  apply notin_looseLines_join _ _ _ _ _ (by decide)
+  · apply notin_padLine _ _ _ (by decide) (by decide)
+    rw [hsnd]; exact fun g hg => (hcols g hg).2.2.1
+  · intro it hit
+    obtain ⟨x, -, rfl⟩ := List.mem_map.mp hit
+    exact notin_paddedRow _ _ _ (by decide) (by decide) (by decide) (by decide)
+
+/-- non-vacuity of `reader_free_layout`: a blank line before the header, three blanks after the header's
+separator, a blank line between the rows, different paddings, final newline -/
+example : joinSep '\n' (looseLines 1 (padLine "t".toList ([3].zip ["a".toList]))
+      [(0, "2001-03-04-05;  1.5".toList), (1, "2001-03-04-04;-2".toList)] 1) =
+    "\nt;   a\n2001-03-04-05;  1.5\n\n2001-03-04-04;-2\n".toList := by decide
+example : paddedRow ((⟨2001, 3, 4, 5⟩ : Stamp), [Dec.fin false 15 1]) [2] = "2001-03-04-05;  1.5".toList := by
+  simp [paddedRow, padLine, fmtStamp, fmtDec, natDigits, fixedDigits, joinSep, digitChar]
+example : readBenchmarkU "\nt;   a\n2001-03-04-05;  1.5\n\n2001-03-04-04;-2\n".toList =
+    some (["t".toList, "a".toList],
+      [(⟨2001, 3, 4, 5⟩, [.fin false 15 1]), (⟨2001, 3, 4, 4⟩, [.fin true 2 0])]) := by decide
+
 /-! design conditions argument of `plot_2D_contour` (defect #13) -/
 
-/-- **design conditions as supplied**: an array argument is drawn point for point, unchanged,
-`True` draws the computed default, `None` draws nothing. -/
-theorem design_conditions_as_supplied {α : Type} (dflt pts : List (α × α)) :
+/-- (definitional: `⟨rfl, rfl, rfl⟩`, three of the four defining equations of the model function
+`designPts`, with the default `dflt` a free variable - NOT a statement about how the default is
+computed; that the real function scatters exactly the supplied array is the correspondence check)
+an array argument is passed on point for point, unchanged, `True` gives the default, `None` nothing. -/
+theorem design_conditions_as_supplied_def {α : Type} (dflt pts : List (α × α)) :
     designPts dflt (.arr pts) = some pts ∧ designPts dflt (.flag true) = some dflt ∧
       designPts dflt (DCArg.none) = Option.none := ⟨rfl, rfl, rfl⟩
 
-/-- defect #13: under the old truth-value test every non-empty array argument was an error -/
+/-- COUNTER-MODEL theorem (about `designPtsOld`, the code before the repair; no driver op runs it).
+Defect #13: under the old truth-value test every non-empty array argument was an error -/
 theorem design_conditions_old_counterexample :
     designPtsOld ([] : List (Nat × Nat)) (.arr [(1, 2)]) = .error () := rfl
+
+/-- COUNTER-MODEL: … for EVERY non-empty array and every default -/
+theorem design_conditions_old_every_nonempty_array {α : Type} (dflt pts : List (α × α)) (h : pts ≠ []) :
+    designPtsOld dflt (.arr pts) = .error () := by
+  cases pts with
+  | nil => exact absurd rfl h
+  | cons p t => simp [designPtsOld]; omega
 
 /-! non-vacuity -/
 
